@@ -145,7 +145,7 @@ def build(e, cfg):
             else:
                 mv = [float((k + p) % 3) for k in range(size * size)]
             present = True
-            if cfg.get('optional_matrices') and fn == 'similar_templates.npy' and p == P - 1:
+            if cfg.get('optional_matrices') and fn == cfg.get('optional_matrix', 'similar_templates.npy') and p == P - 1:
                 present = e.bool('has_sim_%d' % p) if sym_ch else True
             ent = vfs.npy_entry(_arr(mv, (size, size), 'float64'))
             ent.present = present
